@@ -309,12 +309,33 @@ def exc6(ctx, pid):
             table[(t, n)] = outs
         if probs:
             break
+    # the two blank inputs: b"" (length 0) and None are refused as InvalidNode before any indexing
+    for label, val in (("b''", FakeNode(KV, 0)), ("None", None)):
+        try:
+            cases = run_cases(ctx, f, {node: val})
+        except Unknown as e:
+            table[(label, 0)] = {"index/compare before the blank check: %s" % e}
+            continue
+        except Exception as e:  # evaluating node[0] on None
+            table[(label, 0)] = {"%s before the blank check" % type(e).__name__}
+            continue
+        outs = set()
+        for p, st in cases:
+            if p.exit[0] == "raise" and pq.local_raise(p) is not None:
+                outs.add("raise:" + p.exit[1].split(".")[-1])
+            elif p.exit[0] == "return":
+                outs.add(("ret?", tstr(st.ret)[:40]))
+            elif p.exit[0] != "raise":
+                outs.add("fall")
+        table[(label, 0)] = outs
     c = "parse-table:parse_node"
     if probs:
         ctx.unsure(c, f.loc(), probs[0])
         return
 
     def expect(t, n):
+        if n == 0:
+            return "raise:InvalidNode"
         if t == BR:
             return ("ret", BR, ("slice", node, C(1), C(33)), ("slice", node, C(33), None)) if n == 65 else "raise:InvalidNode"
         if t == KV:
@@ -327,7 +348,7 @@ def exc6(ctx, pid):
     for (t, n), outs in table.items():
         w = expect(t, n)
         if outs != {w}:
-            diffs.append("type byte %d, length %d: %s, expected %s" % (t, n, sorted(map(_o, outs)), _o(w)))
+            diffs.append("%s, length %d: %s, expected %s" % ("type byte %d" % t if isinstance(t, int) else "blank input %s" % t, n, sorted(map(_o, outs)), _o(w)))
     # None / empty
     empties = []
     for p, st in pq.states(ctx, f):
@@ -582,6 +603,24 @@ def prov9(ctx, pid):
 
 
 # ---------------------------------------------------------------------------
+def _ieval(t, lenof, n):
+    """integer value of a term in which len(<lenof>) = n; None if it is not such an arithmetic term"""
+    if t[0] == "c" and isinstance(t[1], int) and not isinstance(t[1], bool):
+        return t[1]
+    if t[0] == "len" and t[1] == lenof:
+        return n
+    if t[0] == "bin" and len(t) == 4:
+        a, b = _ieval(t[2], lenof, n), _ieval(t[3], lenof, n)
+        if a is None or b is None:
+            return None
+        try:
+            return {"+": a + b, "-": a - b, "*": a * b, "%": a % b if b else None, "//": a // b if b else None, "&": a & b, "|": a | b,
+                    "<<": a << b if 0 <= b < 64 else None, ">>": a >> b if 0 <= b < 64 else None}.get(t[1])
+        except (ValueError, ZeroDivisionError):
+            return None
+    return None
+
+
 @rule("SIB7b", ["C16"])
 def sib7b(ctx, pid):
     """Bit-string packing: writer and reader agree on bit order (MSB first) and on the header layout of the
@@ -677,6 +716,32 @@ def sib7b(ctx, pid):
             if rr and rr[0] in ("==", "!=") and rr[2] == C(4):
                 flag = (rr[0] == "==")
         headers[flag] = flat
+        # the choice of the header is evaluated for padded lengths 0, 4, .., 28: header + padded bits must fill whole bytes
+        padded = None
+        for x in flat:
+            pass
+        if len(flat) == 4 and flat[0][0] == "c" and isinstance(flat[0][1], bytes):
+            padded = eng.mk_bin("+", flat[2], flat[3])
+            hdr = len(flat[0][1]) + 2
+            for n_ in range(0, 32, 4):
+                taken = True
+                for tt, pol, _ in st.log:
+                    rr = rel_norm(tt, pol)
+                    if rr is None:
+                        continue
+                    lv, rv = _ieval(rr[1], padded, n_), _ieval(rr[2], padded, n_)
+                    if lv is None or rv is None:
+                        taken = None
+                        break
+                    if not {"==": lv == rv, "!=": lv != rv, ">": lv > rv, ">=": lv >= rv}.get(rr[0], True):
+                        taken = False
+                        break
+                if taken is None:
+                    probs.append("the condition that selects the header cannot be evaluated")
+                    break
+                if taken and (hdr + n_) % 8 != 0:
+                    probs.append("for a padded key path of %d bits the writer takes the %d-bit header: %d bits do not fill whole bytes (decode_from_bin would pack a ragged tail)" % (n_, hdr, hdr + n_))
+                    break
     L4 = ("bin", "%", ("len", ib), C(4))
     pad = ("call", "ext:bytes", (("bin", "%", ("bin", "-", C(4), ("len", ib)), C(4)),), ())
     want_tail = [("sub", C(tuple(two)) if False else None, None)]
